@@ -447,16 +447,20 @@ SOURCE_TIES = {
     "C20": ("SOURCE TIE (session 3): the source text of _sync_trait_modified and _sync_trait_items_modified is translated on every run "
             "(harness/translate/syncprog.py -> Generated/SyncProg.lean, language Model/PyLSync.lean); C20_handlers_are_source, "
             "C20_step_is_source and C20_model_is_source prove the model's handlers and cascade equal to the interpretation, incl. a "
-            "partner dying during a propagation (F97/F97b found by that stream, repaired in /repo 8e10b05). sync_trait itself is "
-            "tied by correspondence.",
+            "partner dying during a propagation (F97/F97b found by that stream, repaired in /repo 8e10b05; F104 repaired 78fd598). sync_trait "
+            "itself (add and remove paths, mutual=, the reverse call) and _is_list_trait are translated too (synclink / PyLLink: "
+            "C20_link_is_source, C20_unlink_is_source, C20_commands_are_model); the weakref callback is pinned by an AST tripwire only.",
             "Lean 4 proof (lock invariant and convergence by induction over histories, on top of C05's replay law) over handlers proved "
             "equal to the interpretation of the translated source, with model-code correspondence"),
-    "C02": ("SOURCE TIE (session 3): the C source of setattr_event, getattr_trait, has_notifiers, has_traits_getattro/setattro and "
-            "(on its silent paths) setattr_trait is translated on every run (harness/translate/cattr.py -> Generated/AttrProg.lean, "
-            "language Model/MiniC.lean) and the model functions are proved equal to the interpretation (C02_*_is_source); the rest of "
-            "setattr_trait and call_notifiers are pinned by a digest tripwire (C02_skeleton_pinned), which is not a proof.",
+    "C02": ("SOURCE TIE (session 3): the C source of setattr_trait (all paths, segment lemmas), setattr_event, getattr_trait, call_notifiers "
+            "(loop lemmas; C02_dispatch_snapshot_source states the snapshot property), has_notifiers and has_traits_getattro/setattro is "
+            "translated on every run (harness/translate/cattr.py -> Generated/AttrProg.lean, language Model/MiniC.lean) and the model "
+            "functions are proved equal to the interpretation (C02_*_is_source; no digest tripwire is left); the Python wrapper layer "
+            "traits/trait_notifiers.py (_change_accepted, ctrait_prevent_event, the static / dynamic / observe wrappers' __call__ and "
+            "dispatch) is translated too (harness/translate/pywrap.py, Model/PyW.lean: C02_wrappers_are_source; not covered: argument-count "
+            "adaptation, equals, dead-owner removal, the Extended wrapper).",
             "Lean 4 proof (handler logs = specification filter of the history) over model functions proved equal to the interpretation of "
-            "the translated C source where stated, with translated constants and model-code correspondence"),
+            "the translated C and Python source, with translated constants and model-code correspondence"),
     "C10": ("SOURCE TIE (session 3): the C source of default_value_for (all 11 kinds) and getattr_trait is translated on every run "
             "(cattr / MiniC) and the model is proved equal to the interpretation (C10_default_is_source, C10_getattr_is_source).",
             "Lean 4 proof (non-interference and once-only by induction over histories) over model functions proved equal to the "
